@@ -1,6 +1,9 @@
 (* C03: the generated symbolic obligations - one per (gate kind, observable basis configuration):
    run the model's whole pipeline on the generic instance of the kind and compare the result with the source gate
-   as symbolic circuits over the exact ring KS. *)
+   as symbolic circuits over the exact ring KS.
+   The decomposition of one kind observes a configuration only through: is the dispatched name in basis_2q, (for SWAP) is
+   ISWAP in basis_2q, which two-qubit pass runs, and the rotation elimination; [canon c k] is the canonical configuration
+   with the same observations, so that the 512 x 20 obligations collapse to about a thousand distinct ones. *)
 From Coq Require Import List String Bool Arith.
 From QV Require Import Found.Sym Found.SymProofs Model.ResolveTypes Gen.Decompose Gen.Gates Model.Resolve.
 Import ListNotations.
@@ -10,9 +13,8 @@ Definition no_keep : string -> bool := fun _ => false.
 
 (* semantic obligation: decomposition of the generic gate = the gate, as 2^k x 2^k tables of polynomials *)
 Definition check_sem (c : cfg) (k : kd) : bool :=
-  let g := generic (fst k) (snd k) 0 in
-  match resolve_gate c no_keep g with
-  | Ok gs => scirc_eqb (kqubits (snd k)) (map to_sgate gs) [to_sgate g]
+  match resolve_gate c no_keep (generic (fst k) (snd k) 0) with
+  | Ok gs => scirc_eqb (kqubits (snd k)) (map to_sgate gs) [to_sgate (generic (fst k) (snd k) 0)]
   | Error => true
   end.
 (* membership obligation *)
@@ -34,5 +36,45 @@ Definition check_ok (c : cfg) (k : kd) : bool :=
   | Error => (String.eqb (fst k) "SQRTSWAP" || String.eqb (fst k) "SQRTISWAP") && negb (mem (fst k) (c2q c))
   end.
 
-Definition slice (i : nat) : list cfg := firstn 64 (skipn (64 * i) all_cfgs).
-Definition sem_ok (l : list cfg) : bool := forallb (fun c => forallb (check_sem c) kinds) l.
+(* ---- canonical configurations ------------------------------------------------------------------------------------- *)
+Fixpoint list_eqb (a b : list string) : bool :=
+  match a, b with
+  | [], [] => true
+  | x :: a', y :: b' => String.eqb x y && list_eqb a' b'
+  | _, _ => false
+  end.
+Definition opt_eqb (a b : option string) : bool :=
+  match a, b with Some x, Some y => String.eqb x y | None, None => true | _, _ => false end.
+Definition cfg_eqb (a b : cfg) : bool :=
+  list_eqb (c2q a) (c2q b) && list_eqb (crot a) (crot b) && Bool.eqb (celim a) (celim b).
+Definition memc (c : cfg) (l : list cfg) : bool := existsb (cfg_eqb c) l.
+Fixpoint dedupe (l : list cfg) : list cfg :=
+  match l with [] => [] | c :: l' => let r := dedupe l' in if memc c r then r else c :: r end.
+
+(* the name under which the generic instance of a kind is dispatched (X -> RX, ...) *)
+Definition dispatched (k : kd) : string :=
+  match pauli (generic (fst k) (snd k) 0) with Ok p => gname (snd p) | Error => fst k end.
+Definition canon (c : cfg) (k : kd) : cfg :=
+  let n := dispatched k in
+  Cfg (filter (fun x => (String.eqb x n && mem n (c2q c))
+                        || match first_2q c with Some u => String.eqb x u | None => false end
+                        || (String.eqb n "SWAP" && String.eqb x "ISWAP" && mem "ISWAP" (c2q c))) basis_2q_valid)
+      (if celim c then crot c else []) (celim c).
+(* c and c' are indistinguishable for a gate dispatched under the name n *)
+Definition agree (c c' : cfg) (n : string) : bool :=
+  Bool.eqb (mem n (c2q c)) (mem n (c2q c')) &&
+  Bool.eqb (String.eqb n "SWAP" && mem "ISWAP" (c2q c)) (String.eqb n "SWAP" && mem "ISWAP" (c2q c')) &&
+  opt_eqb (first_2q c) (first_2q c') && Bool.eqb (celim c) (celim c') && (negb (celim c) || list_eqb (crot c) (crot c')).
+
+Definition canons (k : kd) : list cfg := dedupe (map (fun c => canon c k) all_cfgs).
+Definition obl_ok (k : kd) : bool := forallb (fun c => check_sem c k) (canons k).
+Definition obls_ok (ks : list kd) : bool := forallb obl_ok ks.
+
+(* the kinds, split for parallel compilation: the two three-qubit kinds, the two-qubit kinds, the rest *)
+Definition kslice (i : nat) : list kd :=
+  match i with
+  | 0 => filter (fun k => String.eqb (fst k) "TOFFOLI") kinds
+  | 1 => filter (fun k => String.eqb (fst k) "FREDKIN") kinds
+  | 2 => filter (fun k => Nat.eqb (kqubits (snd k)) 2) kinds
+  | _ => filter (fun k => Nat.ltb (kqubits (snd k)) 2) kinds
+  end%nat.
